@@ -93,8 +93,21 @@ impl Output {
             || self.err().contains("panicked at")
             || self.err().contains("stack overflow")
     }
+    /// The tool declined the request: a non-zero exit status together with an error / usage message
+    /// on stderr. (Exit statuses as such are not prescribed by any property: a tool may, e.g., signal
+    /// "unsatisfiable" by its status while printing its normal output.)
+    pub fn refused(&self) -> bool {
+        if self.timed_out || self.panicked() || self.code == Some(0) {
+            return false;
+        }
+        self.err().lines().any(|l| {
+            let l = l.trim_start().to_lowercase();
+            l.starts_with("error") || l.starts_with("usage")
+        })
+    }
+    /// The request was processed: no time-out, no panic, no refusal.
     pub fn ok(&self) -> bool {
-        !self.timed_out && self.code == Some(0)
+        !self.timed_out && !self.panicked() && self.code.is_some() && !self.refused()
     }
     pub fn describe(&self) -> String {
         let e = self.err();
@@ -208,6 +221,8 @@ pub struct Printed {
     pub rows: Vec<(Vec<Cell>, bool)>,
     /// -v lines: (name, starred)
     pub var_lines: Vec<Vec<(String, bool)>>,
+    /// other lines after the table (not interpreted)
+    pub trailer: Vec<String>,
 }
 
 /// characters that may separate the columns of a table (ASCII bar, box-drawing and full-width bars)
@@ -301,15 +316,15 @@ pub fn parse_stdout(out: &str) -> Result<Printed, String> {
             ordering_text.push_str(line);
             ordering_text.push('\n');
         } else {
-            return Err(format!("unexpected line after the table: {:?}", line));
+            // anything else after the table (a row count, a legend) is not part of the specified
+            // content; rows that fail to appear as rows are found by the coverage checks
+            p.trailer.push(line.to_string());
         }
     }
     if !ordering_text.is_empty() {
         let toks = crate::rlex::lex(&ordering_text).map_err(|e| format!("the lines before the table are not readable as a variable order: {}", e))?;
+        // (a text that `-o` would read as the empty ordering - comments, punctuation - is the empty ordering)
         p.ordering = crate::rlex::identifiers(&toks);
-        if p.ordering.is_empty() {
-            return Err(format!("unexpected text before the table: {:?}", ordering_text));
-        }
     }
     Ok(p)
 }
